@@ -1,4 +1,6 @@
 """C18 — Merge Patch application and generation follow RFC 7396."""
+import sys
+sys.setrecursionlimit(30000)
 import random, copy
 from .common import *
 
@@ -262,6 +264,14 @@ def generate(ctx):
         cases.append(Case('mergepatch %d %s %s' % (cs, tgt, ' '.join(deep)), {'tags': ['apply', 'dup-depth-limit', 'robustness']}))
         p = node_tokens(T_OBJECT, children=[node_tokens(T_NUMBER, vi=1, vd=1.0, key='b'), node_tokens(T_OBJECT, key='a', children=[keyed('d', deep)])])
         cases.append(Case('mergepatch %d %s %s' % (cs, tgt, ' '.join(p)), {'tags': ['apply', 'dup-depth-limit', 'robustness']}))
+    # --- values nested about as deep as the parser accepts, under an object member (arrays: merge patch replaces them wholesale)
+    if ctx.get('seed_index', 0) == 0:
+        for depth in (997, 998, 999, 1000):
+            a = 1; b = 2
+            for _ in range(depth - 1): a = [a]; b = [b]
+            add_apply(Obj([('k', a), ('z', 0)]), Obj([('k', b)]), 1, ['deep'], flags=False)
+            add_gen(Obj([('k', a), ('z', 0)]), Obj([('k', b), ('z', 0)]), 1, ['deep'], flags=False)
+            add_gen(Obj([('k', a)]), Obj([('k', copy.deepcopy(a))]), 1, ['deep', 'identical'], flags=False)
     # --- (target, patch)
     n = 1200 if quick else 12000
     for i in range(n):
